@@ -24,5 +24,9 @@ impl<A> ArrayVec<A> {
             (*final(self)).view() == (*old(self)).view() + bytes@.subrange(0, r.unwrap() as int),
     { unimplemented!() }
 }
+impl<A> Clone for ArrayVec<A> {
+    #[verifier::external_body]
+    fn clone(&self) -> (r: Self) ensures r == *self, { unimplemented!() }
+}
 #[derive(Debug)]
 pub struct IoError;
